@@ -458,8 +458,8 @@ def write_replay(pid, key, case, detail):
     name = hashlib.md5(key.encode()).hexdigest()[:10] + '.json'
     path = os.path.join(d, name)
     with open(path, 'w') as f:
-        json.dump({'property': pid, 'key': key, 'observed': detail, 'case': case}, f, indent=1, sort_keys=True,
-                  default=repr)
+        # no sort_keys: mapping key order inside a case is part of the input (C07/C08)
+        json.dump({'property': pid, 'key': key, 'observed': detail, 'case': case}, f, indent=1, default=repr)
     return os.path.relpath(path, VERIF)
 
 
